@@ -7,7 +7,7 @@ ALL = ['C%02d' % i for i in range(1, 21)]
 PENDING_REASON = 'check not built yet (planned, see DESIGN.md section 3); not claimed until its TLA+ specification and conformance harness exist'
 NA = {}
 # properties whose check is finished and reviewed (a check module that exists but is not listed here is work in progress)
-READY = ['C01', 'C02', 'C03', 'C04', 'C05', 'C06', 'C08', 'C09', 'C10', 'C11', 'C12', 'C13', 'C14', 'C15', 'C16', 'C17', 'C18', 'C19', 'C20']
+READY = ['C01', 'C02', 'C03', 'C04', 'C05', 'C06', 'C07', 'C08', 'C09', 'C10', 'C11', 'C12', 'C13', 'C14', 'C15', 'C16', 'C17', 'C18', 'C19', 'C20']
 
 def main():
     commits = subprocess.run(['git', '-C', '/repo', 'log', '--format=%h %s'], capture_output=True, text=True).stdout.splitlines()
